@@ -544,17 +544,9 @@ impl InnerLocustDB {
         let mut new_partition = None;
         let mut maybe_compaction = None;
 
-        if let Some(partition) = table.batch() {
+        if let Some((partition, columns)) = table.batch() {
             #[cfg(feature = "verif")]
             crate::verif::sync_point("flush:table_batched", table.name());
-            let columns: Vec<_> = partition
-                .clone_column_handles()
-                .into_iter()
-                // A concurrent query may already have registered placeholder handles for columns
-                // this partition does not contain; those hold no data and are not persisted.
-                .filter(|c| !c.is_empty())
-                .map(|c| c.try_get().as_ref().unwrap().clone())
-                .collect();
             let (metadata, subpartitions) = subpartition(&self.opts, columns);
             let mut subpartitions_by_last_column = BTreeMap::new();
             for (i, subpartition) in metadata.iter().enumerate() {
